@@ -39,7 +39,7 @@ def faults(quick: bool):
     sel_t = C09.TYPE_RULES if not quick else C09.TYPE_RULES[::3]
     sel_d = C09.DEF_RULES if not quick else C09.DEF_RULES[::4]
     for rid, _, ty, _ in sel_t:
-        for where in ("main", "main2", "import", "version", "main-doc2", "import-doc2"):
+        for where in ("main", "main2", "import", "version", "main-doc2", "import-doc2", "main-link", "import-link"):
             out.append(("rule:%s@%s" % (rid, where), ("rule", where, C09.HELPERS + C09.embed("field", ty, "Inj"))))
     for rid, _, defs in sel_d:
         for where in ("main", "import", "version"):
@@ -89,9 +89,13 @@ def apply_fault(base, outcfg, fault):
     if kind == "rule":
         _, where, defs = fault
         tgt = {"main": "main/model.yml", "main2": "main/sub/zz_extra.yaml", "import": "lib/lib.yml", "version": "v0/model.yml",
-               "main-doc2": "main/model.yml", "import-doc2": "lib/lib.yml"}[where]
+               "main-doc2": "main/model.yml", "import-doc2": "lib/lib.yml",
+               "main-link": "shared/zz_linked.yml", "import-link": "shared/zz_linked.yml"}[where]
         p = os.path.join(W, tgt)
         os.makedirs(os.path.dirname(p), exist_ok=True)
+        if where.endswith("-link"):
+            # the faulty model file lives outside the package; the package directory holds a symbolic link to it
+            os.symlink(os.path.join("..", "shared", "zz_linked.yml"), os.path.join(W, {"main-link": "main", "import-link": "lib"}[where], "zz_linked.yml"))
         a, _, b = defs.partition("\n---\n")
         with open(p, "a") as f:
             # "-doc2": the fault sits in a second YAML document of an existing model file
